@@ -75,9 +75,20 @@ def run(ctx):
         ctx.touch(fn, len(fn.blocks))
         muts = lib.self_mutations(fn, 1, allow_calls=ALLOW_BEFORE_GUARD)
         tr_stores = [m for m in muts if any(o == 'TicketRef' for o, f in m['fields'])]
-        if not ctx.floor('GUARD-C25a:' + fn.name, len(tr_stores), 4, 'stores to TicketRef fields in %s' % key):
+        inst = None if tr_stores else _installer(F, fn)
+        if inst is not None:
+            # the accepting tail (stores + persistence) extracted into a private method only the entry points call: the call is the
+            # mutation the guards must dominate; the stores and the persistence chain are decided inside the helper
+            icall, h = inst
+            ctx.touch(h, len(h.blocks))
+            hm = lib.self_mutations(h, 1)
+            tr_stores = [m for m in hm if any(o == 'TicketRef' for o, f in m['fields'])]
+            n_muts = len(muts) + len(hm)
+        else:
+            n_muts = len(muts)
+        if not ctx.floor('GUARD-C25a:' + fn.name, len(tr_stores), 2, 'stores to TicketRef fields in %s' % key):
             continue
-        ctx.floor('MPT-C25d:' + fn.name, len(muts), 8, 'state mutation points in %s' % key)
+        ctx.floor('MPT-C25d:' + fn.name, n_muts, 4, 'state mutation points in %s' % key)
         # --- C25a: strict sequence guard dominates every mutation
         for m in muts:
             g = lib.find_guard(fn, m['bb'], '>',
@@ -90,11 +101,38 @@ def run(ctx):
             else:
                 ctx.ok('GUARD-C25a', fn, '%s dominated by strict sequence guard at line %s' % (m['what'], g.line), line=m['line'])
         # --- C25d persistence chain
-        _persist_chain(ctx, fn)
+        if inst is not None and not fn.calls_to('Memvid::rewrite_toc_footer'):
+            icall, h = inst
+            if all(ex.get('call') is icall or lib.call_success_dominates(fn, icall, ex['bb']) for ex in fn.ok_exits()):
+                _persist_chain(ctx, h)
+            else:
+                ctx.bad('MPT-C25d', fn, 'an Ok exit does not pass the helper that persists the ticket', detail='persist-chain')
+        else:
+            _persist_chain(ctx, fn)
         if key.endswith('apply_signed_ticket'):
-            _signed(ctx, fn, muts)
+            _signed(ctx, fn, muts, inst)
     _signature_fn(ctx)
     _writers(ctx, F)
+
+
+def _callers(F, h):
+    out = set()
+    for f in F.fns.values():
+        if any(c.local_callee == h.path for c in f.calls()):
+            out.add(f.key if not f.is_closure else f.path)
+    return out
+
+
+def _installer(F, fn):
+    """(call, helper) when fn hands the accepted ticket to a private Memvid method that stores the TicketRef fields and that only
+    the ticket entry points call"""
+    for c in fn.calls():
+        h = F.fns.get(c.local_callee) if c.local_callee else None
+        if h is None or h.is_closure or not (h.r.get('impl_self') or '').endswith('::Memvid'):
+            continue
+        if lib.field_stores(h, 'TicketRef') and _callers(F, h) <= set(ENTRY):
+            return c, h
+    return None
 
 
 def _mkey(m):
@@ -119,7 +157,7 @@ def _persist_chain(ctx, fn):
         ctx.bad('MPT-C25d', fn, 'persistence chain broken: ' + why, detail='persist-chain')
 
 
-def _signed(ctx, fn, muts):
+def _signed(ctx, fn, muts, inst=None):
     ver = fn.calls_to('verify_ticket_signature')
     if len(ver) != 1:
         ctx.lost('MPT-C25b', 'apply_signed_ticket must call verify_ticket_signature exactly once (found %d)' % len(ver))
@@ -181,6 +219,16 @@ def _signed(ctx, fn, muts):
             ctx.bad('FLOW-C25c', fn, 'verify arg %d should carry ticket.%s but derives from ticket fields %s%s' % (
                 idx, field, sorted(tfields), ' and self' if 1 in s.args else ''), line=ver.line, detail='verify-arg-%d' % idx, sink=field)
     signed = {f for _, f in VERIFY_PARAM_FIELDS}
+    if inst is not None:
+        icall, h = inst
+        for i, a in enumerate(icall.args[1:], 1):
+            sa = lib.slice_back(fn, [a], at=(icall.bb, None))
+            tfields = {f for o, f in sa.fields if o == 'SignedTicket'}
+            ctx.evaluations += 1
+            if tfields - signed:
+                ctx.bad('FLOW-C25c', fn, 'argument %d of %s (stored into ticket_ref) uses unsigned ticket field(s) %s' % (i, h.name, sorted(tfields - signed)), line=icall.line, detail='unsigned-field:arg%d' % i)
+            else:
+                ctx.ok('FLOW-C25c', fn, 'argument %d of %s uses only signed ticket fields %s' % (i, h.name, sorted(tfields)), line=icall.line)
     for st in lib.field_stores(fn, 'TicketRef'):
         s = lib.slice_back(fn, lib.rv_operands(st['rv']))
         tfields = {f for o, f in s.fields if o == 'SignedTicket'}
@@ -266,6 +314,8 @@ def _writers(ctx, F):
             ctx.ok('WMC-C25e', fn, 'reviewed writer: ' + (SEQ_WRITER_TABLE.get(k) or SEQ_WRITER_TABLE[k.split('::')[-1]]), line=st.get('line'))
         elif fn is not None and fn.r.get('derive') in ('Clone', 'Default'):
             continue  # derived Clone/Default of TicketRef itself
+        elif fn is not None and not fn.is_closure and _callers(F, fn) and _callers(F, fn) <= set(ENTRY):
+            ctx.ok('WMC-C25e', fn, 'private helper called only by the guarded entry points (its call sites are what the guards dominate)', line=st.get('line'))
         else:
             ctx.bad('WMC-C25e', fn or k, 'unreviewed writer of TicketRef.seq_no / constructor of TicketRef', line=st.get('line'), detail='writer', sink='TicketRef.seq_no')
     ctx.floor('WMC-C25e', len(writers), 2, 'writers of TicketRef.seq_no')
